@@ -64,6 +64,9 @@ theorem crcvBlock_final_none (single : Bool) (cap : Nat) (junk : UInt8) (lg : Cr
   by_cases hund : m ≠ 0 ∧ data.length ≠ 2 ^ (szx + 4)
   · rw [if_pos hund]; intro _; rfl
   · rw [if_neg hund]
+    by_cases hlastnum : m ≠ 0 ∧ 0xFFFFF ≤ num
+    · rw [if_pos hlastnum]; intro _; rfl
+    rw [if_neg hlastnum]
     cases he : r.etag with
     | some e =>
       simp only
